@@ -304,12 +304,16 @@ class Gaussian(Distribution):
             raise NotImplementedError("Gradient not implemented for distribution {} with geometry {}".format(self,self.geometry))
 
         if not callable(self.mean): # for prior
+            if isinstance(self.prec, np.ndarray) and self.prec.ndim == 1 and self.prec.size > 1:
+                return -( self.prec * (val - self.mean) ) # vector prec holds the diagonal of the precision
             return -( self.prec @ (val - self.mean).T )
         elif hasattr(self.mean, "gradient"): # for likelihood
             model = self.mean
             dev = val - model.forward(*args, **kwargs)
             if isinstance(dev, numbers.Number):
                 dev = np.array([dev])
+            if isinstance(self.prec, np.ndarray) and self.prec.ndim == 1 and self.prec.size > 1:
+                return model.gradient(self.prec * dev, *args, **kwargs) # vector prec holds the diagonal
             return model.gradient(self.prec @ dev, *args, **kwargs)
         else:
             warnings.warn('Gradient not implemented for {}'.format(type(self.mean)))
